@@ -391,12 +391,25 @@ def default_env():
 def run_template(env, src, data):
     from liquid.exceptions import LiquidError
 
-    try:
-        return {"out": env.from_string(src).render(**data)}
-    except LiquidError as e:
-        return {"err": type(e).__name__}
-    except Exception as e:  # a non-Liquid error escaping a condition
-        return {"err": type(e).__name__}
+    def one(is_async):
+        try:
+            t = env.from_string(src)
+            if is_async:
+                import asyncio
+
+                return {"out": asyncio.run(t.render_async(**data))}
+            return {"out": t.render(**data)}
+        except LiquidError as e:
+            return {"err": type(e).__name__}
+        except Exception as e:  # a non-Liquid error escaping a condition
+            return {"err": type(e).__name__}
+
+    a = one(False)
+    b = one(True)
+    if a != b:
+        # conditions must follow the same rules on the asynchronous path (added after seeded change C12-2)
+        return {"err": "ASYNC-DIFFERS", "sync": a, "async": b}
+    return a
 
 
 def host_str_for(op, a, b):
